@@ -5,45 +5,46 @@ regular expression; the combinators build the corresponding languages.
 import Pfl.Spec.Regex
 import Pfl.Spec.FA
 import Pfl.Proofs.FABase
+import Pfl.Proofs.RegexLemmas
 namespace Pfl
 namespace Rx
 
-theorem nullable_iff (r : Rx) : r.nullable = true ↔ Denote r [] := by
-  sorry
+theorem nullable_iff (r : Rx) : r.nullable = true ↔ Denote r [] :=
+  Lem.nullable_iff r
 
-theorem deriv_iff (c : String) (r : Rx) (w : List String) : Denote (deriv c r) w ↔ Denote r (c :: w) := by
-  sorry
+theorem deriv_iff (c : String) (r : Rx) (w : List String) : Denote (deriv c r) w ↔ Denote r (c :: w) :=
+  Lem.deriv_iff c r w
 
 /-- the matcher decides membership in the denoted language -/
-theorem matches_iff (r : Rx) (w : List String) : r.matches w = true ↔ Denote r w := by
-  sorry
+theorem matches_iff (r : Rx) (w : List String) : r.matches w = true ↔ Denote r w :=
+  Lem.matches_iff r w
 
 /-- `to_epsilon_nfa()`: for every value of the state counter, the automaton accepts exactly the
 (coded) words of the denoted language -/
 theorem thompson_lang (code : String → Nat) (r : Rx) (c : Nat) (ks : List Nat) :
-    (r.thompson code c).1.Lang ks ↔ ∃ w, Denote r w ∧ w.map code = ks := by
-  sorry
+    (r.thompson code c).1.Lang ks ↔ ∃ w, Denote r w ∧ w.map code = ks :=
+  Lem.thompson_lang code r c ks
 
 /-- the states allocated by the construction are exactly `c, c+1, …, c' - 1` -/
 theorem thompson_counter (code : String → Nat) (r : Rx) (c : Nat) :
     c + 2 ≤ (r.thompson code c).2 ∧
-    ∀ q ∈ (r.thompson code c).1.states, c ≤ q ∧ q < (r.thompson code c).2 := by
-  sorry
+    ∀ q ∈ (r.thompson code c).1.states, c ≤ q ∧ q < (r.thompson code c).2 :=
+  Lem.thompson_counter code r c
 
-theorem thompson_wf (code : String → Nat) (r : Rx) (c : Nat) : (r.thompson code c).1.WF := by
-  sorry
+theorem thompson_wf (code : String → Nat) (r : Rx) (c : Nat) : (r.thompson code c).1.WF :=
+  Lem.thompson_wf code r c
 
 /-- `union` / `concatenate` / `kleene_star` of regex objects -/
-theorem alt_denote (a b : Rx) (w : List String) : Denote (.alt a b) w ↔ Denote a w ∨ Denote b w := by
-  sorry
+theorem alt_denote (a b : Rx) (w : List String) : Denote (.alt a b) w ↔ Denote a w ∨ Denote b w :=
+  Lem.alt_denote a b w
 
 theorem cat_denote (a b : Rx) (w : List String) :
-    Denote (.cat a b) w ↔ ∃ u v, w = u ++ v ∧ Denote a u ∧ Denote b v := by
-  sorry
+    Denote (.cat a b) w ↔ ∃ u v, w = u ++ v ∧ Denote a u ∧ Denote b v :=
+  Lem.cat_denote a b w
 
 theorem star_denote (a : Rx) (w : List String) :
-    Denote (.star a) w ↔ ∃ ws : List (List String), w = ws.flatten ∧ ∀ x ∈ ws, Denote a x := by
-  sorry
+    Denote (.star a) w ↔ ∃ ws : List (List String), w = ws.flatten ∧ ∀ x ∈ ws, Denote a x :=
+  Lem.star_denote a w
 
 end Rx
 end Pfl
